@@ -67,26 +67,32 @@ Section API.
   (* ---------- the modified-signature reduction at the API layers ---------- *)
   Hypothesis OK : hashes_ok P HS.
   Hypothesis PW : params_wf P.
+  Hypothesis WB : hashes_wfb HS.
+  Hypothesis DW : digits_wf P.
 
   Theorem verify_modified_signature : forall pk msg ctx sig sig',
     verify P HS pk msg sig ctx = Some true -> verify P HS pk msg sig' ctx = Some true ->
     firstn n sig = firstn n sig' -> sig <> sig' ->
-    wots_switch P HS (firstn n pk) \/ th_collision HS (firstn n pk).
+    sig_switch P HS (firstn n pk) (skipn n pk) (wrap_msg msg ctx) sig sig' = true \/ th_collision HS (firstn n pk).
   Proof.
     intros pk msg ctx sig sig' V V' ER Hne. unfold verify in V, V'.
     destruct (negb (Nat.eqb (length pk) (2 * n))); [discriminate|].
     destruct (Nat.ltb 255 (length ctx)); [discriminate|].
-    inversion V as [V1]. inversion V' as [V1'].
-    exact (modified_signature_accepted P HS OK PW _ _ _ _ _ V1 V1' ER Hne).
+    apply (f_equal (fun o => match o with Some b => b | None => false end)) in V.
+    apply (f_equal (fun o => match o with Some b => b | None => false end)) in V'.
+    exact (modified_signature_accepted P HS OK PW WB DW _ _ _ _ _ V V' ER Hne).
   Qed.
 
   Theorem tink_verify_modified_signature : forall tv id pk msg sig sig',
     tink_verify P HS tv id pk msg sig = Some true -> tink_verify P HS tv id pk msg sig' = Some true ->
     firstn (length (tink_prefix tv id) + n) sig = firstn (length (tink_prefix tv id) + n) sig' -> sig <> sig' ->
-    wots_switch P HS (firstn n pk) \/ th_collision HS (firstn n pk).
+    sig_switch P HS (firstn n pk) (skipn n pk) (wrap_msg msg [])
+      (skipn (length (tink_prefix tv id)) sig) (skipn (length (tink_prefix tv id)) sig') = true
+    \/ th_collision HS (firstn n pk).
   Proof.
     intros tv id pk msg sig sig' V V' ER Hne.
     apply tink_verify_accepts_iff in V, V'. destruct V as (s & -> & V). destruct V' as (s' & -> & V').
+    rewrite !skipn_app_exact by reflexivity.
     apply (verify_modified_signature pk msg [] s s' V V').
     - rewrite !firstn_app in ER. replace (length (tink_prefix tv id) + n - length (tink_prefix tv id)) with n in ER by lia.
       rewrite !firstn_all2 in ER by lia. apply app_inv_head in ER. exact ER.
